@@ -63,6 +63,9 @@ type Obs struct {
 	WrongTask []string
 	Notes     []string
 	TapeOut   []int
+	// CapExtended: the run reached the ordinary event cap and was repeated with
+	// a cap twenty times larger (same choices)
+	CapExtended bool
 }
 
 type taskState struct {
@@ -85,9 +88,30 @@ type runner struct {
 
 // Execute runs plan on a fresh mock of cell c under a simulation that draws
 // its scheduling choices from tp.
+//
+// A run that reaches the event cap is repeated with the same choices and a
+// twenty times larger cap before it counts as "no progress": only a run that
+// exhausts that too is a livelock; one that finishes was merely long.
 func Execute(c *Cell, p *Plan, tp *tape.Tape, keepLog bool) *Obs {
+	start := len(tp.Out) // the tape may already hold the draws that made the plan
+	obs := execute(c, p, tp, keepLog, 0)
+	for _, v := range obs.Sim.Viol {
+		if v.Class == "no-progress" {
+			cap := obs.Sim.MaxEvents * 20
+			obs = execute(c, p, tape.Replay(append([]int(nil), obs.TapeOut[start:]...)), keepLog, cap)
+			obs.CapExtended = true
+			break
+		}
+	}
+	return obs
+}
+
+func execute(c *Cell, p *Plan, tp *tape.Tape, keepLog bool, cap uint64) *Obs {
 	sim := simrt.New(tp, p.Strategy)
 	sim.KeepLog = keepLog
+	if cap > 0 {
+		sim.MaxEvents = cap
+	}
 	r := &runner{c: c, p: p, sim: sim, nilF: map[string]bool{}, hasReset: map[string]bool{}}
 	r.obs = &Obs{Cell: c, Plan: p, Sim: sim, Final: map[string][]string{}, FreshLens: map[string]int{}}
 	for _, n := range p.NilFuncs {
@@ -161,7 +185,7 @@ func Execute(c *Cell, p *Plan, tp *tape.Tape, keepLog bool) *Obs {
 		// snapshots returned earlier must not have changed
 		for _, rec := range r.obs.Recs {
 			if rec.Op.Kind == OpCalls && rec.Done && rec.snapVal.IsValid() {
-				now := tuplesOf(rec.snapVal)
+				now := tuplesOf(rec.snapVal, r.arity(rec.Op.Method))
 				if !equalStrings(now, rec.Snap) {
 					rec.SnapChanged = fmt.Sprintf("had %d records %s, now %d records %s",
 						len(rec.Snap), r.descTuples(rec.Snap), len(now), r.descTuples(now))
@@ -252,7 +276,7 @@ func (r *runner) runOp(ts *taskState, o *Op, depth int) {
 			p := r.obs.Recs[i]
 			if p.Task == ts.idx && p.Op.Kind == OpCalls && p.Op.Method == o.Method && p.Done && p.snapVal.IsValid() {
 				r.readElems(p.snapVal, o.Method)
-				now := tuplesOf(p.snapVal)
+				now := tuplesOf(p.snapVal, r.arity(o.Method))
 				if !equalStrings(now, p.Snap) && p.SnapChanged == "" {
 					p.SnapChanged = fmt.Sprintf("had %d records %s, now %d records %s", len(p.Snap), r.descTuples(p.Snap), len(now), r.descTuples(now))
 				}
@@ -305,7 +329,7 @@ func (r *runner) readCalls(rec *OpRec, method string) {
 	}
 	rec.snapVal = out[0]
 	r.readElems(out[0], method)
-	rec.Snap = tuplesOf(out[0])
+	rec.Snap = tuplesOf(out[0], r.arity(method))
 }
 
 // readElems reads every element of a snapshot the way user code would: each
@@ -320,15 +344,24 @@ func (r *runner) readElems(s reflect.Value, method string) {
 	}
 }
 
+// arity is the number of parameters of a method of the mocked interface.
+func (r *runner) arity(method string) int {
+	if m := r.c.method(method); m != nil {
+		return len(m.In)
+	}
+	return 0
+}
+
 // tuplesOf renders every record of an MCalls() result as the joined idents of
-// its fields in declaration order.
-func tuplesOf(s reflect.Value) []string {
+// its first n fields in declaration order (one per parameter; whatever else a
+// record may carry after them is not the arguments and is not compared).
+func tuplesOf(s reflect.Value, n int) []string {
 	out := make([]string, s.Len())
 	for i := range out {
 		e := s.Index(i)
 		var parts []string
 		if e.Kind() == reflect.Struct {
-			for j := 0; j < e.NumField(); j++ {
+			for j := 0; j < e.NumField() && j < n; j++ {
 				parts = append(parts, ident(e.Field(j)))
 			}
 		} else {
